@@ -328,8 +328,18 @@ def m_current_dir(it, argv, text):
 
 @model('absolute')
 def m_absolute(it, argv, text):
+    """std::path::absolute (POSIX): joins a relative path to the cwd, drops `.` components and repeated separators, but -- unlike
+    canonicalize -- KEEPS `..` components and does not touch the file system (no symlink resolution, the path need not exist)"""
     env = E.env_of(it)
-    return S.ok(StrV(E.comps_to_bytes(env.norm(E.path_arg(it, argv[0])))))
+    p = E.path_arg(it, argv[0])
+    if any(is_sym(b) for b in p):
+        raise Unsupported("std::path::absolute of a symbolic path")
+    p = bytes(p)
+    if not p:
+        return S.err(E.io_error('InvalidInput'))
+    full = p if p.startswith(b'/') else bytes(env.cwd).rstrip(b'/') + b'/' + p
+    comps = [c for c in full.split(b'/') if c not in (b'', b'.')]
+    return S.ok(StrV(tuple(b'/' + b'/'.join(comps))))
 
 
 @model('remove_dir_all', 'remove_dir')
